@@ -1,0 +1,48 @@
+//go:build verif
+
+package pogreb
+
+import "sync/atomic"
+
+// Verification hooks. They are compiled in only with the "verif" build tag and never change what the
+// database does unless a callback is installed.
+
+type verifHooks struct {
+	// HashSeed, when set, replaces a freshly drawn random hash seed.
+	HashSeed func(seed uint32) uint32
+	// Event is called at notable points that have no other observable effect (e.g. "recover").
+	Event func(db *DB, event string)
+	// Yield is called, with no database lock held, at the points where a maintenance task lets other
+	// goroutines in (e.g. "compact:record", "backup:captured", "backup:segment").
+	Yield func(db *DB, point string)
+}
+
+var verifHooksPtr atomic.Pointer[verifHooks]
+
+// VerifSetHooks installs (or, with all arguments nil, removes) the verification callbacks.
+func VerifSetHooks(hashSeed func(uint32) uint32, event func(*DB, string), yield func(*DB, string)) {
+	if hashSeed == nil && event == nil && yield == nil {
+		verifHooksPtr.Store(nil)
+		return
+	}
+	verifHooksPtr.Store(&verifHooks{HashSeed: hashSeed, Event: event, Yield: yield})
+}
+
+func verifHashSeed(seed uint32) uint32 {
+	if h := verifHooksPtr.Load(); h != nil && h.HashSeed != nil {
+		return h.HashSeed(seed)
+	}
+	return seed
+}
+
+func verifEvent(db *DB, event string) {
+	if h := verifHooksPtr.Load(); h != nil && h.Event != nil {
+		h.Event(db, event)
+	}
+}
+
+func verifYield(db *DB, point string) {
+	if h := verifHooksPtr.Load(); h != nil && h.Yield != nil {
+		h.Yield(db, point)
+	}
+}
